@@ -212,14 +212,31 @@ pub fn typed(args: &[&str]) -> Option<Vec<String>> {
             chk(h.get::<ContentType>().map(|g| g == v), h.clone().remove::<ContentType>().map(|g| g == v), { let mut h2 = h.clone(); h2.remove::<ContentType>(); h2.get::<ContentType>().is_none() })
         }
         "text" => {
-            let v = header::Subject::from(unhex_str(a)?);
-            h.set(v.clone());
-            // looked up under another letter case
-            let raw = h.get_raw("sUBJECT").map(|r| r == unhex_str(a).unwrap());
-            if raw != Some(true) {
-                return Some(vec![hex(h.to_string().as_bytes()), "case-insensitive-lookup-failed".into()]);
+            // `b` selects which of the text headers carries the value (`-` = Subject)
+            macro_rules! text_case {
+                ($t:ty, $probe:expr) => {{
+                    let v = <$t>::from(unhex_str(a)?);
+                    h.set(v.clone());
+                    // looked up under another letter case
+                    let raw = h.get_raw($probe).map(|r| r == unhex_str(a).unwrap());
+                    if raw != Some(true) {
+                        return Some(vec![hex(h.to_string().as_bytes()), "case-insensitive-lookup-failed".into()]);
+                    }
+                    chk(h.get::<$t>().map(|g| g == v), h.clone().remove::<$t>().map(|g| g == v), { let mut h2 = h.clone(); h2.remove::<$t>(); h2.get::<$t>().is_none() })
+                }};
             }
-            chk(h.get::<header::Subject>().map(|g| g == v), h.clone().remove::<header::Subject>().map(|g| g == v), { let mut h2 = h.clone(); h2.remove::<header::Subject>(); h2.get::<header::Subject>().is_none() })
+            match b {
+                "-" | "subject" => text_case!(header::Subject, "sUBJECT"),
+                "comments" => text_case!(header::Comments, "cOMMENTS"),
+                "keywords" => text_case!(header::Keywords, "kEYWORDS"),
+                "in-reply-to" => text_case!(header::InReplyTo, "iN-rEPLY-tO"),
+                "references" => text_case!(header::References, "rEFERENCES"),
+                "message-id" => text_case!(header::MessageId, "mESSAGE-id"),
+                "user-agent" => text_case!(header::UserAgent, "uSER-aGENT"),
+                "content-id" => text_case!(header::ContentId, "cONTENT-id"),
+                "content-location" => text_case!(header::ContentLocation, "cONTENT-lOCATION"),
+                _ => return None,
+            }
         }
         _ => return None,
     };
